@@ -139,10 +139,13 @@ pub fn custom_ext_values() -> Vec<(String, Vec<CustomExtSpec>)> {
     vec![
         ("non-critical".into(), vec![a.clone()]),
         ("critical".into(), vec![b.clone()]),
-        ("acme".into(), vec![acme]),
+        ("acme".into(), vec![acme.clone()]),
         ("two".into(), vec![a.clone(), b]),
         ("nc:oid of subjectAltName".into(), vec![san_like]),
         ("empty content".into(), vec![CustomExtSpec { content: vec![0x05, 0x00], ..a.clone() }]),
+        // criticality is the caller's for every OID: the ACME identifier made non-critical, and its OID on a plain extension
+        ("acme made non-critical".into(), vec![CustomExtSpec { critical: false, ..acme.clone() }]),
+        ("acme oid through from_oid_content, non-critical".into(), vec![CustomExtSpec { critical: false, acme: false, ..acme.clone() }]),
         (
             "nc:repeated oid among three".into(),
             vec![
